@@ -534,13 +534,15 @@ pub fn check_c19(h: &History) -> Result<CaseInfo, Failure> {
     }
     let mut bytes = 0u64;
     for sel in 0..4 {
-        let g1 = catch_unwind(AssertUnwindSafe(|| generate(&def, &config_for(sel))));
-        let g1b = catch_unwind(AssertUnwindSafe(|| generate(&def, &config_for(sel))));
+        // one configuration object serves two generations (then a fresh one for the other replay)
+        let config = config_for(sel);
+        let g1 = catch_unwind(AssertUnwindSafe(|| generate(&def, &config)));
+        let g1b = catch_unwind(AssertUnwindSafe(|| generate(&def, &config)));
         let g2 = catch_unwind(AssertUnwindSafe(|| generate(&def2, &config_for(sel))));
         if let (Ok(g1), Ok(g1b), Ok(g2)) = (&g1, &g1b, &g2) {
             bytes += g1.len() as u64;
             if g1 != g1b {
-                return Err(Failure::new("code-differs", format!("generate() twice on one definition differs (fragment selection {})", sel)));
+                return Err(Failure::new("code-differs", format!("generate() twice on one definition, with one configuration object, differs (fragment selection {})", sel)));
             }
             if g1 != g2 {
                 return Err(Failure::new("code-differs", format!("generated code differs between two replays (fragment selection {})", sel)));
